@@ -11,6 +11,7 @@ pub mod ctx;
 pub mod gen;
 pub mod progs;
 pub mod codec;
+pub mod wire;
 
 mod props {
     include!(concat!(env!("OUT_DIR"), "/props.rs"));
